@@ -1,7 +1,7 @@
 """C01 — Memfs behaves as a tree filesystem for every history.
 Decided clause: a single-target call that reports failure leaves the tree exactly as it was (FAIL-ATOMIC).
 Not decided: equality of every result and tree with a reference model over all histories."""
-import engine, atomic
+import engine, atomic, errguard
 from callgraph import CallGraph
 
 EXPLANATION = (
@@ -9,14 +9,18 @@ EXPLANATION = (
     "that owns or receives the write guard no control-flow path runs a mutator (insert/remove of an entry or data record, set_cwd, a write through "
     "get_entry_mut/get_file_mut, or the Ok-continuation of a callee that mutates only on Ok) and afterwards reaches an Err return; the rule is "
     "compositional through the MutatesOnOkOnly summary. Paths that are infeasible under the tree invariant are excused by one table line each, whose "
-    "structural side conditions (the validations it relies on dominate every mutation) are re-checked on every run. NOT decided: that every result "
+    "structural side conditions (the validations it relies on dominate every mutation) are re-checked on every run. Also decided: 'failure with the documented "
+    "error kind' structurally — every error exit of the Memfs methods is taken exactly under its frozen validation facts (ERR-GUARD) — and the query / read / "
+    "listing methods never take the write guard or mutate (READ-ONLY). NOT decided: that every result "
     "and the resulting tree equal those of a reference tree filesystem for all histories (a value-level equivalence over runtime states).")
 
 
 def run(rep, F, ctx):
     cg = CallGraph(F)
     cg.prune_never_err()
-    atomic.fail_atomic(rep, F, cg)
+    M, ok_only = atomic.fail_atomic(rep, F, cg)
+    errguard.err_guard(rep, F, cg, engine.load_table('err_guards.json'), lambda fn: 'memfs' in fn)
+    errguard.read_only(rep, F, cg, M)
     return engine.finish(
         rep, 'other', EXPLANATION,
         assumptions=['the excuse lines in tables/failatomic_excuses.json state true infeasibility arguments (most rely on the tree invariant of C03)',
